@@ -91,6 +91,8 @@ class Abs(object):
                             if self.ndat < FRAG_BOUND:
                                 out.append('P:d0')
                             out.append('P:d2')
+                            if self.ndat:
+                                out.append('P:d2e')      # the data set ends with an empty last fragment (legal: a streaming sender)
                     else:
                         out += ['P:c3n', 'P:c1']      # any P-DATA-TF outside an established association
                 if 'Evt12' in row:
@@ -177,7 +179,7 @@ class Abs(object):
         elif a == 'P:rest':
             conc, mevs = ('bytes', REL[7:]), ['Evt12']
             self.half = False
-        elif a in ('P:c1', 'P:c3n', 'P:c3d', 'P:d0', 'P:d2'):
+        elif a in ('P:c1', 'P:c3n', 'P:c3d', 'P:d0', 'P:d2', 'P:d2e'):
             established = sta in (6, 7)
             if a == 'P:c1':
                 piece = cmd(True)[13 * self.ncmd:13 * self.ncmd + 13]
@@ -202,6 +204,10 @@ class Abs(object):
                 mevs = ['Evt10p']
                 self.ndat += 1
                 self.rx = 'ds'
+            elif a == 'P:d2e':
+                conc = ('pdu', e2.pdata(3, 2, b''))
+                mevs = ['Evt10c']
+                self.rx, self.ncmd, self.ndat = 'idle', 0, 0
             else:
                 conc = ('pdu', e2.pdata(3, 2, DATASET[7 * self.ndat:]))
                 mevs = ['Evt10c']
@@ -276,10 +282,10 @@ def _invariants(env, step, idx, viol, hist):
                      'ARTIM %s at a quiescent point in Sta%d after history %r' % ('running' if step['timer'] else 'stopped', sta, hist[:idx])))
 
 
-def check_history(role, hist, delta, deviations=None):
+def check_history(role, hist, delta, deviations=None, mpl=16384):
     """Run one history on a fresh provider; -> (violations, canonical state, abstract env, observation signature)."""
     a, conc, exp = _expected_of(hist, role, delta)
-    env = e2.Env(role, conc, deviations=deviations).run()
+    env = e2.Env(role, conc, deviations=deviations, max_pdu_length=mpl).run()
     viol = []
     fin = env.final
     where = 'role=%s history=%r' % (role, hist)
@@ -345,10 +351,14 @@ def check_history(role, hist, delta, deviations=None):
                     viol.append((tag + ':abort-indication-fields', 'received A-ABORT (2,1) indicated as %r (%s)' % (st['inds'][0], where)))
                 if aev.startswith('P:rj') and st['inds'] and st['inds'][0][0] == 'A-ASSOCIATE-RJ' and st['inds'][0][1:] != (2, 1, 3):
                     viol.append((tag + ':rj-indication-fields', 'received RJ (2,1,3) indicated as %r (%s)' % (st['inds'][0], where)))
-                comps = [c for c in (aev[3:] if aev.startswith('PP:') else aev).replace('+close', '').split(',') if c in ('P:c3n', 'P:d2')]
+                comps = [c for c in (aev[3:] if aev.startswith('PP:') else aev).replace('+close', '').split(',') if c in ('P:c3n', 'P:d2', 'P:d2e')]
                 for k, x in enumerate([y for y in st['inds'] if y[0] == 'DIMSE']):
                     base = comps[k] if k < len(comps) else None
                     want_len = {'P:c3n': None, 'P:d2': len(DATASET)}.get(base, 'any')
+                    if base == 'P:d2e':
+                        want_len = 'any'
+                        if x[3] not in (7, 14, 21, 28):
+                            viol.append((tag + ':dimse-content', 'message ended by an empty last fragment reassembled as %r (%s)' % (x, where)))
                     if x[1:3] != ('CStoreRQMessage', 3) or (want_len != 'any' and x[3] != want_len):
                         viol.append((tag + ':dimse-content', 'reassembled message %r, expected a C-STORE-RQ on context 3 with data set length %r (%s)' % (x, want_len, where)))
                     elif want_len != 'any':
@@ -394,6 +404,15 @@ def expand(args):
         child = hist + [ev]
         viol, canon, a2, sig = check_history(role, child, delta)
         ndev = 0
+        if len(child) <= 5 and not viol and not ev.startswith('PP:'):
+            # the same history on a provider configured without a limit of its own (maximum PDU length 0, the documented
+            # "unlimited"): the protocol machine does not depend on it
+            v0, canon0, _, sig0 = check_history(role, child, delta, mpl=0)
+            ndev += 1
+            viol = viol + [(s_ + ':unlimited', m_ + ' [provider configured with maximum PDU length 0]') for s_, m_ in v0]
+            if not v0 and sig0 != sig:
+                viol = viol + [('c05:unlimited-provider-differs', 'with maximum PDU length 0 the provider behaves differently: %r versus %r (role=%s history=%r)' % (
+                    sig0, sig, role, child))]
         if len(child) < dev_len and not viol:
             for ev2 in a2.enabled(pairs=False):
                 if ev2.endswith('+close'):
@@ -527,9 +546,14 @@ def run_case(case):
         return {'viol': check_simultaneous(case['role'], case['hist'], pe, ue, delta), 'case': case}
     dev = {p: True for p in case.get('dev', [])} or None
     _set_tier(case.get('tier', 'quick'))
-    viol, canon, a, sig = check_history(case['role'], case['hist'], delta, deviations=dev)
+    viol, canon, a, sig = check_history(case['role'], case['hist'], delta, deviations=dev, mpl=case.get('mpl', 16384))
     if dev:
         viol = [(s + ':dev', m) for s, m in viol]
+    if 'mpl' in case:
+        ref = check_history(case['role'], case['hist'], delta)
+        viol = [(s + ':unlimited', m) for s, m in viol]
+        if not viol and ref[3] != sig:
+            viol = [('c05:unlimited-provider-differs', 'with maximum PDU length 0 the provider behaves differently: %r versus %r' % (sig, ref[3]))]
     return {'viol': viol, 'case': case}
 
 
@@ -577,7 +601,7 @@ def main(tier, seed):
                         sigs.add(sig[-2:] if len(sig) > 1 else sig)
                         edges_cov.update(new_edges)
                         for s, m in viol:
-                            rep.add(common.Viol(s, m, {'role': role, 'hist': child, 'tier': tier}))
+                            rep.add(common.Viol(s, m, dict({'role': role, 'hist': child, 'tier': tier}, **({'mpl': 0} if 'unlimited' in s else {}))))
                         if key not in seen:
                             seen.add(key)
                             if not viol:
